@@ -246,7 +246,7 @@ class NB:
         axis = d(st.sampled_from([len(shape) - 1, len(shape) - 1, 1 if len(shape) > 2 else len(shape) - 1, 2 if len(shape) > 3 else len(shape) - 1]))
         if other is not None and self.info(other)["shape"][:axis] + self.info(other)["shape"][axis + 1:] != shape[:axis] + shape[axis + 1:]:
             other = None
-        exact = self.profile in ("exact", "slices", "elementwise", "approx", "exact16", "convs", "mixed")  # the int8 reference kernel demands identical quantisation; C01's exact class keeps to it
+        exact = self.profile in ("exact", "slices", "elementwise", "approx", "exact16", "convs", "mixed", "reshapes")  # the int8 reference kernel demands identical quantisation; C01's exact class keeps to it
         if exact and other is not None and (self.info(other)["scale"], self.info(other)["zp"]) != (X["scale"], X["zp"]):
             other = None
         if other is None:
@@ -530,6 +530,11 @@ def network(profile="exact", max_ops=6, dtypes=("int8", "int8", "int8", "uint8",
         if profile == "exact16":  # exact-class operators whose 16-bit reference is pinned down (no ADD/SUB: their int16 reference depends on the pot_scale option)
             menu = ["conv", "conv", "conv", "dw", "fc", "maxpool", "avgpool_valid", "mul", "relu", "relu6", "reshape", "concat", "pad", "quantize", "sslice", "split",
                     "maximum", "minimum", "mul_const", "padconv", "add", "sub", "add_const"]
+        reshape_plan = None
+        if profile == "reshapes":  # every kind of operator directly before and/or after a RESHAPE (the rewrites must keep the operator's own shapes)
+            menu = list(EXACT_OPS) + APPROX_TAIL_OPS
+            reshape_plan = draw(st.sampled_from(["after", "after", "before", "both"]))
+            n_ops = 3 if reshape_plan == "both" else 2
         if profile == "mixed":  # exact-class operators interleaved with CPU-resident operators that have a reference kernel (stride-4 convolution, TILE), with heavy
             # re-use of earlier tensors: several Ethos-U operators exchanging tensors with the CPU, compared by value
             menu = ["conv", "dw_same", "add", "add", "mul", "sub", "maxpool", "relu", "concat", "unsupported_conv", "unsupported_conv", "tile", "add_const", "reshape"]
@@ -559,6 +564,12 @@ def network(profile="exact", max_ops=6, dtypes=("int8", "int8", "int8", "uint8",
             kind = draw(st.sampled_from(kinds))
             if approx_tail is not None and last:
                 kind = approx_tail
+            if reshape_plan is not None:
+                is_reshape = (reshape_plan == "after" and i == 1) or (reshape_plan == "before" and i == 0) or (reshape_plan == "both" and i in (0, 2))
+                if is_reshape:
+                    kind = "reshape"
+                elif kind == "reshape":
+                    kind = "conv"
             if not r4 and kind in ("conv", "dw", "dw_same", "unsupported_conv", "maxpool", "avgpool_valid", "avgpool_same", "padconv", "tconv", "resize_nearest", "resize_bilinear", "mean"):
                 kind = draw(st.sampled_from(["fc", "add_const", "reshape", "relu", "mul_const"]))
             if X["dtype"] == "int16" and kind in ("avgpool_same", "resize_bilinear", "hswish", "lrelu", "tconv", "mean", "softmax", "logistic", "tanh"):
